@@ -78,6 +78,25 @@ theorem defnHasFields_loadByName_false (n : Str) (s : Lookup)
     · simp [hn, h, defnOf, defnHasFields]
   · simp [hn, defnOf, defnHasFields]
 
+/-! ### loader gate: characters of an accepted name -/
+
+theorem nameBodyThenEnd_chars : ∀ (s : Str), nameBodyThenEnd s = true →
+    ∀ c ∈ s, isNameBody c = true ∨ c = '\n'
+  | [], _ => by simp
+  | [c], h => by
+    intro d hd
+    simp only [List.mem_cons, List.mem_nil_iff, or_false] at hd; subst hd
+    simp only [nameBodyThenEnd, Bool.or_eq_true, beq_iff_eq] at h
+    rcases h with h | h
+    · exact Or.inr h
+    · exact Or.inl h
+  | c :: c2 :: rest, h => by
+    intro d hd
+    simp only [nameBodyThenEnd, Bool.and_eq_true] at h
+    rcases List.mem_cons.mp hd with rfl | hd
+    · exact Or.inl h.1
+    · exact nameBodyThenEnd_chars (c2 :: rest) h.2 d hd
+
 /-! ### recordSchema -/
 
 theorem recordSchema_vstatus (b : Option Builtin) (d : Option (Str × Option Str × Bool)) (n : Str) (r : Envelope) :
